@@ -166,7 +166,13 @@ func (d *diff) Set(elements ...Element) {
 	for _, e := range elements {
 		hash := xxhash.Sum64([]byte(e.Id))
 		el := &element{Element: e, hash: hash}
-		d.sl.Remove(el)
+		if d.sl.Remove(el) != nil {
+			// the id is already indexed: only its head changes, the element
+			// counts of the ranges it belongs to must stay as they are
+			d.sl.Set(el, nil)
+			d.ranges.updateElement(hash)
+			continue
+		}
 		d.sl.Set(el, nil)
 		d.ranges.addElement(hash)
 	}
